@@ -1,0 +1,30 @@
+//go:build verif
+
+// Verification hooks for the reverse proxy's client protocol on the `hosts` usage pool
+// (build tag `verif` only; add-only: no behaviour of any build depends on this file).
+// Together with Handler.VerifProvision (hosts_verif.go) and the exported Handler.Cleanup
+// they let a forced-schedule harness run the real acquire (provisionUpstream → fillHost →
+// hosts.LoadOrStore) and release (Cleanup → hosts.Delete for every provisioned upstream)
+// glue against the real pool, as concurrent requests with dynamic upstreams do.
+
+package reverseproxy
+
+import (
+	"io"
+	"sync"
+
+	"github.com/caddyserver/caddy/v2"
+)
+
+// VerifHostsPool returns the usage pool of upstream hosts (hosts.go).
+func VerifHostsPool() *caddy.UsagePool { return hosts }
+
+// VerifPoolHandler returns a Handler with the given (not yet provisioned) upstreams and
+// just enough of Provision's set-up (the connection table) for Cleanup to run.
+func VerifPoolHandler(upstreams UpstreamPool) *Handler {
+	return &Handler{
+		Upstreams:     upstreams,
+		connections:   make(map[io.ReadWriteCloser]openConnection),
+		connectionsMu: new(sync.Mutex),
+	}
+}
